@@ -372,3 +372,25 @@ def pubParseEcc (ext : Ext) (data : Bytes) : PyRes PubKey :=
 def privLoader (data : Bytes) : Enc := fileEncoding data
 
 end SpsdkVerif.Keys
+
+/-! ### specification vocabulary used by Properties/C08.lean (not part of the modelled code) -/
+namespace SpsdkVerif.Keys
+open SpsdkVerif.Misc
+
+/-- the NXP raw form of a pair of fixed-width big-endian numbers -/
+def rawSig (c : Curve) (r s : Nat) : Bytes := beEnc c.cl r ++ beEnc c.cl s
+
+/-- number of content octets of the DER INTEGER holding `n` -/
+def intLen (n : Nat) : Nat := (encIntContent n).length
+/-- total length of a TLV with `l` content octets -/
+def tlvLen (l : Nat) : Nat := 1 + (encLen l).length + l
+/-- total length of the DER signature of `(r, s)` -/
+def derLen (r s : Nat) : Nat := tlvLen (tlvLen (intLen r) + tlvLen (intLen s))
+
+/-- the DER length lies in the window `ECDSASignature.get_ecc_curve` attributes to curve `c` -/
+def LenWindow (c : Curve) (r s : Nat) : Prop := 2 * c.cl + 3 ≤ derLen r s ∧ derLen r s ≤ 2 * c.cl + 8
+
+/-- an RSA modulus of exactly `ks` bits -/
+def TopBit (n ks : Nat) : Prop := 2 ^ (ks - 1) ≤ n ∧ n < 2 ^ ks
+
+end SpsdkVerif.Keys
